@@ -759,6 +759,11 @@ class Interp:
 
     def st_For(self, s, frame):
         it = self.eval(s.iter, frame)
+        if isinstance(it, SObj):
+            # an object with a Python-level __iter__ (e.g. dns.set.Set: ``return iter(self.items)``): iterate what it returns
+            f = self.class_lookup(it.cls, "__iter__")
+            if f is not None and isinstance(unwrap_function(f), types.FunctionType):
+                it = self.call(BoundMethod(it, unwrap_function(f), "__iter__"), [], {})
         lc = self.loop_contract(s, frame)
         if lc is None:
             items = self.models.concrete_items(self, it, allow_fail=True)
